@@ -159,6 +159,8 @@ class TaskLoader:
                 )
             )
             raise syntax_err from ex
+        except ConductorError:
+            raise
         except Exception as ex:
             run_err = TaskParseError(error_details=str(ex))
             run_err.add_file_context(
